@@ -263,10 +263,17 @@ fn gmm<T: ItemT, const N: usize>(m: &mut HT<T>, ks: &[u64], any: bool) -> String
         m.get_many_mut(hashes, |i, e| tape::eq_of(ks[i], e.k()))
     };
     let out: Vec<String> = res.iter().map(|o| o.as_ref().map_or("-".into(), |e| fmt_item::<T>(e))).collect();
+    // direct oracle, valid for every hasher/eq: the returned `&mut` are pairwise disjoint
+    let mut addrs: Vec<usize> = res.iter().flatten().map(|e| &**e as *const T as usize).collect();
+    addrs.sort_unstable();
+    let aliased = !T::ZST && addrs.windows(2).any(|w| w[0] == w[1]);
     for (i, o) in res.into_iter().enumerate() {
         if let Some(e) = o {
             e.set_v(e.v() + 1000 * (i as u64 + 1));
         }
+    }
+    if aliased {
+        return format!("[{}] ORACLE-ALIAS(get_many_mut_returned_two_mutable_references_to_one_element)", out.join(","));
     }
     format!("[{}]", out.join(","))
 }
